@@ -1,5 +1,7 @@
 import HmfVerif.Real.Tactics
 import HmfVerif.Gen.ExprFlow
+import HmfVerif.Gen.ExprFilters
+import HmfVerif.Proofs.FilterLemmas
 import HmfVerif.Proofs.ExprLemmas
 import HmfVerif.Spec.Wiring
 import HmfVerif.Gen.Guards
@@ -79,6 +81,33 @@ theorem dndm_nonneg (hB : ρ "flag:isinstance(self.hmf, ff.Behroozi)" ≤ 0.5) (
     (hf : 0 ≤ ρ "fsigma") (hr : 0 ≤ ρ "mean_density0") : 0 ≤ evalR opq ρ Gen.Flow.MassFunction_dndm := by
   rw [dndm_eq opq ρ hB hD]; positivity
 end
+
+
+/-- C02 ("radius enclosing mass m", and `mass_nonlinear` outside the tabulated range, which maps the radius at which
+    σ = δ_c back to a mass with `radius_to_mass`): for each filter, `radius_to_mass` is the exact inverse of the
+    `mass_to_radius` map that defines `radii` -/
+theorem mass_radius_maps_inverse (hρ : 0 < ρ "rho_mean") (hc : 0 < ρ "p.c") (hr : 0 ≤ ρ "r") :
+    evalR opq (Function.update ρ "m" (evalR opq ρ Gen.Filters.TopHat_radius_to_mass)) Gen.Filters.TopHat_mass_to_radius = ρ "r" ∧
+    evalR opq (Function.update ρ "m" (evalR opq ρ Gen.Filters.Gaussian_radius_to_mass)) Gen.Filters.Gaussian_mass_to_radius = ρ "r" ∧
+    evalR opq (Function.update ρ "m" (evalR opq ρ Gen.Filters.SharpK_radius_to_mass)) Gen.Filters.SharpK_mass_to_radius = ρ "r" ∧
+    evalR opq (Function.update ρ "m" (evalR opq ρ Gen.Filters.SharpKEllipsoid_radius_to_mass)) Gen.Filters.SharpKEllipsoid_mass_to_radius = ρ "r" := by
+  refine ⟨?_, ?_, ?_, ?_⟩
+  · simp only [Gen.Filters.TopHat_radius_to_mass, Gen.Filters.TopHat_mass_to_radius]; expr_unfold; push_cast
+    simp only [Function.update_apply, String.reduceEq, if_false, if_true, zpow_ofNat]
+    refine Eq.trans ?_ (Hmf.FilterLemmas.tophat_rt_real (ρ "r") (ρ "rho_mean") hρ hr)
+    expr_finish
+  · simp only [Gen.Filters.Gaussian_radius_to_mass, Gen.Filters.Gaussian_mass_to_radius]; expr_unfold; push_cast
+    simp only [Function.update_apply, String.reduceEq, if_false, if_true, zpow_ofNat]
+    refine Eq.trans ?_ (Hmf.FilterLemmas.gaussian_rt_real (ρ "r") (ρ "rho_mean") hρ hr)
+    expr_finish
+  · simp only [Gen.Filters.SharpK_radius_to_mass, Gen.Filters.SharpK_mass_to_radius]; expr_unfold; push_cast
+    simp only [Function.update_apply, String.reduceEq, if_false, if_true, zpow_ofNat]
+    refine Eq.trans ?_ (Hmf.FilterLemmas.sharpk_rt_real (ρ "r") (ρ "rho_mean") (ρ "p.c") hρ hc hr)
+    expr_finish
+  · simp only [Gen.Filters.SharpKEllipsoid_radius_to_mass, Gen.Filters.SharpKEllipsoid_mass_to_radius]; expr_unfold; push_cast
+    simp only [Function.update_apply, String.reduceEq, if_false, if_true, zpow_ofNat]
+    refine Eq.trans ?_ (Hmf.FilterLemmas.sharpk_rt_real (ρ "r") (ρ "rho_mean") (ρ "p.c") hρ hc hr)
+    expr_finish
 
 /-- C02 (grid independence): the body of dndm mentions the mass grid only through `m` — `Mmin`,
     `Mmax`, `dlog10m` are not among its inputs — and is elementwise, so its value at a mass is a
